@@ -280,6 +280,7 @@ func TestVerifC06Shape(t *testing.T) {
 		p := vfC05Params{Cookie: rapid.Bool().Draw(rt, "cookie"), NSID: rapid.Bool().Draw(rt, "nsid"), Chaos: rapid.Bool().Draw(rt, "chaos")}
 		ecsOn := rapid.Bool().Draw(rt, "ecs")
 		proto := vfGenUpstream(rt)
+		vfAddProofZone(rt, proto) // signed negative answers: RRSIG / NSEC in the authority section only
 		n := rapid.IntRange(2, 10).Draw(rt, "nsteps")
 		var steps []vfC06Step
 		type hotQ struct {
@@ -287,7 +288,8 @@ func TestVerifC06Shape(t *testing.T) {
 			qtype uint16
 		}
 		hots := []hotQ{{"www.example.org.", 1}, {"alias.example.org.", 1}, {"nx.example.org.", 1}, {"signed.example.org.", 1}, {"signed.example.org.", 46}, {"fail.example.org.", 1},
-			{"big.example.org.", 16}, {"ede.example.org.", 1}, {"geo.example.org.", 1}, {"nodata.example.org.", 1}, {"local.test.", 1}, {"1.0.0.10.in-addr.arpa.", 12}}
+			{"big.example.org.", 16}, {"ede.example.org.", 1}, {"geo.example.org.", 1}, {"nodata.example.org.", 1}, {"local.test.", 1}, {"1.0.0.10.in-addr.arpa.", 12},
+			{"gone.sz.example.org.", 1}, {"nd.sz.example.org.", 16}, {"a.b.gone.sz.example.org.", 1}, {"gx.sz.example.org.", 1}, {"nd.sz.example.org.", 1}}
 		hot := hots[rapid.IntRange(0, len(hots)-1).Draw(rt, "hot")]
 		for i := 0; i < n; i++ {
 			if rapid.IntRange(0, 5).Draw(rt, "issleep") == 0 {
@@ -366,6 +368,9 @@ func TestVerifC06Shape(t *testing.T) {
 					cx.DoQ = st.Ingress == "doq"
 				}
 				v, fired := vfC06Check(st.Raw, writes, cx)
+				if v == "" && (st.Ingress == "wire" || st.Ingress == "decoded") {
+					v = vfC06ScreenExpect(st.Raw, writes) // a body the library cannot decode is owed FORMERR, cached name or not
+				}
 				for _, f := range fired {
 					firedAll[f] = true
 				}
@@ -452,6 +457,14 @@ func TestVerifC06Listeners(t *testing.T) {
 				if q.EDNS {
 					q.Version = 1
 				}
+			case 4:
+				// a well-known option code over a payload its format does not allow
+				q.EDNS = true
+				if q.UDPSize == 0 {
+					q.UDPSize = 1232
+				}
+				q.Options = append(q.Options, vfgen.OptionSpec{Kind: "local", Code: rapid.SampledFrom([]uint16{dns.EDNS0TCPKEEPALIVE, dns.EDNS0TCPKEEPALIVE, dns.EDNS0SUBNET, dns.EDNS0COOKIE, dns.EDNS0EDE, dns.EDNS0EXPIRE}).Draw(rt, "badoptcode"),
+					Data: rapid.SampledFrom([]string{"aa", "aa", "aabbcc", "00010203040506", "0001020304050607080910"}).Draw(rt, "badoptdata")})
 			}
 			q.ID = uint16(1000 + i)
 			specs = append(specs, q)
